@@ -54,9 +54,11 @@ type Run struct {
 	From    map[string]string       // action -> "point|point" the thread must be parked at ("" or missing: anywhere)
 	Keys    []string                // fixed info keys
 	Project func() map[string]any
-	Out     *bufio.Writer
-	Seed    int64
-	Pre     func(label, action string) // before a planned step is granted
+	// ProjectEnd, if set, computes the projection of the end line (the system is quiescent there)
+	ProjectEnd func() map[string]any
+	Out        *bufio.Writer
+	Seed       int64
+	Pre        func(label, action string) // before a planned step is granted
 	// results
 	Steps, Skipped, Stalls int
 	Drifted                bool
@@ -215,6 +217,9 @@ func (r *Run) Execute() {
 	}
 	if r.Drifted {
 		end.Mode = "drift"
+	}
+	if r.ProjectEnd != nil {
+		end.S = r.ProjectEnd()
 	}
 	r.emit(end)
 }
